@@ -109,6 +109,8 @@ void onSanitizerDeath() { dumpCrash("sanitizer report"); }
 
 void onTerminate()
 {
+	static const char msg[] = "std::terminate called (an exception met a noexcept boundary, or was thrown while another was in flight)\n";
+	ssize_t r = write(2, msg, sizeof msg - 1); (void)r;
 	dumpCrash("std::terminate");
 	signal(SIGABRT, SIG_DFL);
 	abort();
